@@ -412,6 +412,12 @@ STR_REPLIES = [("日本", '"日本"'), ("éé", '"éé"'), ("héllo wörld", '"h
 EXTRA = [",9", " , x", ":tail", ", 1, 2"]
 
 
+# surplus after a colon / comma following multi-byte first items (byte counts vs character counts)
+C08_FORCED = [("A$", "str", INPUT_FORMS[0], rep, lit, ex)
+              for rep, lit in (("日本", '"日本"'), ("éé", '"éé"'), ("héllo wörld", '"héllo wörld"'), ("😊", '"😊"'), ("é", '"é"'))
+              for ex in (":x", ":", ", y", " :tail")]
+
+
 def run_c08(chk):
     h = core.Harness(chk.harness_path)
     n = 160 if chk.tier == "quick" else 5000
@@ -423,6 +429,8 @@ def run_c08(chk):
         in_sub = r.chance(0.25)
         reply, literal = r.choice(NUM_REPLIES if kind == "num" else STR_REPLIES)
         extra = r.choice(EXTRA) if r.chance(0.3) and reply.strip() else ""
+        if i < len(C08_FORCED):
+            tgt, kind, form, reply, literal, extra = C08_FORCED[i]
         reenters = r.below(3) if kind == "num" else 0
         pre = ["10 DIM N(5) : DIM M(3,3) : DIM T$(3) : I = 1", "20 PRINT \"start\""]
         post = ["50 PRINT \"v=\";" + tgt, "60 PRINT \"done\" : END"]
